@@ -175,7 +175,8 @@ Fixpoint run_print (cfg : config) (s : sstate) (ops : list op) : list bytes :=
 Fixpoint join_bar (l : list bytes) : bytes :=
   match l with [] => [] | [a] => a | a :: r => a ++ [32; 124; 32] ++ join_bar r end.
 
-(* SESSION side allowed refusedpw failsaves settings cntin cntout store preregs ops *)
+(* SESSION side allowed refusedpw failsaves settings cntin cntout store preregs ops
+   (side: A or I, followed by S when the SequenceReset builder is configured) *)
 Definition k_SESSION : bytes := [83;69;83;83;73;79;78].
 
 Definition run_session_line (line : bytes) : bytes :=
@@ -194,12 +195,14 @@ Definition run_session_line (line : bytes) : bytes :=
                       | Some (pre, r5) =>
                           match p_ops r5 with
                           | Some (ops, []) =>
-                              let cfg := {| c_side := match sd with [73] => Initiator | _ => Acceptor end;
+                              let cfg := {| c_side := match sd with 73 :: _ => Initiator | _ => Acceptor end;
                                             c_allowed := allowed;
                                             c_approve := fun x => match refused with
                                                                   | Some pw => negb (beq (st_password x) pw)
                                                                   | None => true end;
-                                            c_fail_saves := fails; c_settings := st |} in
+                                            c_fail_saves := fails;
+                                            c_seqreset := match sd with [_; 83] => true | _ => false end;
+                                            c_settings := st |} in
                               let s0 := init_state cfg cin cout store in
                               let s1 := fst (run_ops cfg s0 pre) in
                               let '(s2, o2) := run_session cfg s1 in
